@@ -253,6 +253,19 @@ def _reset_case(kind):
 
 # ---------------------------------------------------------------------------- bounded
 
+
+def _absdiff_max(a, b):
+    """largest |a - b|; NaN on both sides is agreement, NaN on one side only is an infinite difference (np.nanmax alone would hide it)"""
+    import numpy as _np
+    a, b = _np.asarray(a, dtype=float), _np.asarray(b, dtype=float)
+    if a.size == 0:
+        return 0.0
+    if (_np.isnan(a) != _np.isnan(b)).any():
+        return float("inf")
+    d = _np.abs(a - b)
+    return 0.0 if _np.isnan(d).all() else float(_np.nanmax(d))
+
+
 def _bounded(shard, nshards):
     def run(tier, seed):
         import sys
@@ -369,7 +382,7 @@ def _bounded(shard, nshards):
                             for grp, k in (("node", "head"), ("link", "flowrate")):
                                 a, b = getattr(ra, grp)[k], getattr(rb, grp)[k]
                                 if a.size:
-                                    worst = max(worst, float(np.nanmax(np.abs(a.values.astype(float) - b[a.columns].values.astype(float)))))
+                                    worst = max(worst, _absdiff_max(a.values, b[a.columns].values))
                         if not same_index or worst > 1e-6:
                             failures.append(dict(model=name, check=tag, same_time_index=same_index, max_abs_difference=worst))
                     for tag, rr in (("reset_and_rerun", r2), ("deepcopy", r3)):
@@ -378,7 +391,7 @@ def _bounded(shard, nshards):
                         if same_index:
                             for grp, k in (("node", "head"), ("node", "demand"), ("link", "flowrate"), ("link", "status")):
                                 a, b = getattr(r1, grp)[k].values.astype(float), getattr(rr, grp)[k].values.astype(float)
-                                worst = max(worst, float(np.nanmax(np.abs(a - b))) if a.size else 0.0)
+                                worst = max(worst, _absdiff_max(a, b))
                         if not same_index or worst > 1e-6:
                             kf = known_bounded("C11", "C11.%s[%s]" % (tag, name))
                             if kf is not None:
